@@ -12,10 +12,10 @@ ModelElem(t) ==
                          cls |-> (IF t[7] = 1 THEN <<"broken">> ELSE <<"solid">>) \o (IF t[8] = 1 THEN <<"filled">> ELSE <<"nofill">>), s |-> <<>>, g |-> 0]
   ELSE IF t[1] = "path" THEN [k |-> "path", n |-> <<M(t[2]), M(t[3]), M(t[4]), M(t[4]), M(t[6]), M(t[7])>>, role |-> <<0,1,2,2,0,1>>,
                          fl |-> <<0, t[8], t[5]>>, cls |-> <<"nofill">>, s |-> <<>>, g |-> 0]
-  ELSE IF t[1] = "polygon" THEN [k |-> "polygon", n |-> [i \in 1..(Len(t) - 1) |-> M(t[i + 1])],
-                         role |-> [i \in 1..(Len(t) - 1) |-> (i + 1) % 2], fl |-> <<>>, cls |-> <<"filled">>, s |-> <<>>, g |-> 0]
+  ELSE IF t[1] = "polygon" THEN [k |-> "polygon", n |-> [i \in 1..(Len(t) - 2) |-> M(t[i + 1])],
+                         role |-> [i \in 1..(Len(t) - 2) |-> (i + 1) % 2], fl |-> <<>>, cls |-> <<"filled">>, s |-> <<>>, g |-> 0]
   ELSE IF t[1] = "circle" THEN [k |-> "circle", n |-> <<M(t[2]), M(t[3]), M(t[4])>>, role |-> <<0,1,2>>, fl |-> <<>>,
                          cls |-> IF t[5] = 1 THEN <<"filled">> ELSE <<"nofill">>, s |-> <<>>, g |-> 0]
   ELSE [k |-> "text", n |-> <<M(t[2]), M(t[3])>>, role |-> <<0,1>>, fl |-> <<>>, cls |-> <<>>, s |-> t[4], g |-> 0]
-ModelDoc(o) == [wf |-> 1, elems |-> [i \in 1..Len(o) |-> ModelElem(o[i])]]
+ModelDoc(o) == [wf |-> 1, elems |-> [i \in 1..Len(o) |-> [ModelElem(o[i]) EXCEPT !.g = o[i][Len(o[i])]]]]
 =============================================================================
